@@ -2,19 +2,20 @@
 _CODECS = ["contracts.at4_ctrl_status", "contracts.at5_ctrl_status", "contracts.at5_ext"]
 _SOCK = ["contracts.sock_queue", "contracts.sock_conn"]
 _HB = ["contracts.heartbeat"]
+_FL = ["contracts.float_lemmas"]
 _API = ["contracts.api_zone", "contracts.api_ac", "contracts.api_airtouch"]
 MODULES = {
     "C01": _SOCK,
     "C02": _SOCK + _API + _HB,
-    "C03": ["contracts.c06_crc"] + _CODECS,
-    "C04": _CODECS + _API,
-    "C05": _CODECS,
+    "C03": ["contracts.c06_crc"] + _CODECS + _FL,
+    "C04": _CODECS + _API + _FL,
+    "C05": _CODECS + _FL,
     "C06": ["contracts.c06_crc"] + _SOCK,
     "C07": _SOCK,
     "C08": _HB + ["contracts.sock_conn", "contracts.api_airtouch"],
     "C09": _API,
-    "C10": _API,
-    "C11": _API,
+    "C10": _API + _FL,
+    "C11": _API + _FL,
     "C12": _API + ["contracts.sock_conn"],
     "C13": _SOCK,
     "C14": _API + ["contracts.sock_conn"],
@@ -22,5 +23,5 @@ MODULES = {
     "C16": _SOCK,
     "C17": _CODECS + _SOCK,
     "C18": ["contracts.discovery"],
-    "C19": _API + ["contracts.discovery"],
+    "C19": _API + ["contracts.discovery"] + _FL,
 }
